@@ -329,6 +329,11 @@ class DefaultOperatorResolver(OperatorResolver):
         def nested_product_expansion(
             parents: OrderedSet[Term], nested: OrderedSet[Term]
         ) -> OrderedSet[Term]:
+            if not parents:
+                raise exc_for_token(
+                    Token(),
+                    "The parent argument of `/` and `%in%` must include at least one term.",
+                )
             common = functools.reduce(lambda x, y: x * y, parents)
             return cast(
                 OrderedSet, parents | OrderedSet(common * term for term in nested)
